@@ -39,7 +39,7 @@ CU = 'utils.courier_utils'
 
 
 def run(ctx: Ctx):
-  for r in (r1, r2, r3, r4, r5, r6, r7, r8, r11, r12, r13, r14, r18, r19):
+  for r in (r1, r2, r3, r4, r5, r6, r7, r8, r11, r12, r13, r14, r18, r19, r22):
     ctx.guard(r)
   from mlmverif.props import c15
   from mlmverif.props import c05
@@ -1047,12 +1047,74 @@ def r19(ctx: Ctx):
   ctx.floor(rule, 1, n)
 
 
+def r22(ctx: Ctx):
+  rule = 'R-C06-22'
+  ctx.rule(rule, '"as long as one worker stays usable ... retried": the retry budget counts TIMEOUTS. The counter that is compared'
+           ' with the retry threshold grows, per scheduling round, by the number of tasks that timed out in that round — the'
+           ' very collection that is put back on the work list (`<work>.extend(X)` ... `<counter> += len(X)`), or by one per'
+           ' such task. Charging the length of the work list (which also holds shards that merely wait for a free worker)'
+           ' counts the waiting shards again at every timeout: the budget is spent long before the real number of timeouts'
+           ' reaches it and a run that would finish on the remaining workers is aborted')
+  repo = ctx.repo
+  n = 0
+  for mod in (CW, 'chainables.orchestrate'):
+    mi = repo.module(mod)
+    fns = list(mi.functions.values()) + [m_ for c in mi.classes.values() for m_ in c.methods.values()]
+    for fi in fns:
+      counters = set()
+      for c in ast.walk(fi.node):
+        if isinstance(c, ast.Compare) and len(c.comparators) == 1:
+          sides = [c.left, c.comparators[0]]      # comparisons are stored in canonical (`<`) orientation
+          if any('retry_threshold' in unparse(x) or 'max_retries' in unparse(x) for x in sides):
+            counters |= {x.id for x in sides if isinstance(x, ast.Name) and 'retr' not in x.id}
+      if not counters:
+        continue
+      pm = parent_map(fi.node)
+      for a in ast.walk(fi.node):
+        if not (isinstance(a, ast.AugAssign) and isinstance(a.op, ast.Add) and isinstance(a.target, ast.Name)
+                and a.target.id in counters):
+          continue
+        n += 1
+        what = f'{fi.qualname}: `{a.target.id}` grows by the number of tasks that timed out'
+        ok = False
+        why = ''
+        if isinstance(a.value, ast.Constant) and a.value.value == 1:
+          ok = True
+        elif isinstance(a.value, ast.Call) and unparse(a.value.func) == 'len' and len(a.value.args) == 1:
+          x = unparse(a.value.args[0])
+          block = pm.get(a)
+          sibs = []
+          for fld in ('body', 'orelse', 'finalbody'):
+            b = getattr(block, fld, None)
+            if isinstance(b, list) and a in b:
+              sibs = b
+          requeued = {unparse(c.args[0]) for st in sibs for c in ast.walk(st) if isinstance(c, ast.Call)
+                      and isinstance(c.func, ast.Attribute) and c.func.attr == 'extend' and len(c.args) == 1}
+          worklists = {unparse(c.func.value) for st in sibs for c in ast.walk(st) if isinstance(c, ast.Call)
+                       and isinstance(c.func, ast.Attribute) and c.func.attr == 'extend' and len(c.args) == 1}
+          ok = x in requeued and x not in worklists
+          why = f'`{unparse(a)}` charges len({x}), which is not the collection put back for a retry ({sorted(requeued)})'
+        else:
+          why = f'`{unparse(a)}` is neither `+= 1` nor `+= len(<timed-out tasks>)`'
+        if ok:
+          ctx.ok(rule, fi, what, a)
+        else:
+          ctx.fail(rule, fi, what, why + ': shards that only wait for a worker are counted as timeouts at every round in which'
+                   ' another shard times out — the run gives up with "Too many Timeouts" although the number of real'
+                   ' timeouts is within the budget', node=a)
+  ctx.floor(rule, 1, n)
+
+
 from mlmverif.selfcheck import B, OK  # noqa: E402
 
 _W = 'chainables/courier_worker.py'
 _O = 'chainables/orchestrate.py'
 _U = 'utils/courier_utils.py'
 VARIANTS = [
+    B('retry-budget-charged-with-the-work-list', 'chainables/courier_worker.py',
+      "          timeout_cnt += len(timeout_tasks)", "          timeout_cnt += len(tasks)", 'R-C06-22'),
+    OK('retry-budget-charged-before-requeue', 'chainables/courier_worker.py',
+       "          tasks.extend(timeout_tasks)\n          timeout_cnt += len(timeout_tasks)", "          timeout_cnt += len(timeout_tasks)\n          tasks.extend(timeout_tasks)"),
     B('shutdown-rewrite-on-the-returned-way-only', 'chainables/courier_server.py',
       "      if self._shutdown_requested:\n        e = TimeoutError('Shutdown requested, the worker is shutting down.')\n      if not return_exception:\n        raise e\n",
       "      if not return_exception:\n        raise e\n      if self._shutdown_requested:\n        e = TimeoutError('Shutdown requested, the worker is shutting down.')\n", 'R-C06-21'),
